@@ -77,7 +77,7 @@ func genCase(r *rand.Rand) Case {
 	for i := 0; i < n; i++ {
 		c.Sched = append(c.Sched, r.Intn(span))
 	}
-	c.Policy = []string{"lowest", "highest"}[r.Intn(2)]
+	c.Policy = []string{"lowest", "highest", "nonpreempt", fmt.Sprintf("random:%d", r.Int63()), fmt.Sprintf("random:%d", r.Int63())}[r.Intn(5)]
 	return c
 }
 
@@ -95,6 +95,7 @@ func tinyConfigs() []Case {
 	}
 }
 
+// number of preemptions in a complete schedule: switching away from a thread that could have continued
 func preemptions(enabledAt [][]int, full []int, upto int) int {
 	n := 0
 	for i := 1; i <= upto && i < len(full); i++ {
@@ -188,45 +189,48 @@ func main() {
 			emit(o, rp.Case, runCase(node, hp, rp.Case), "corpus:"+fn)
 		}
 	case "dfs":
-		// stateless exploration: re-run with a prefix, complete lowest-enabled-first, branch on
-		// every alternative enabled thread after the prefix (bounded preemptions, bounded runs)
+		// stateless exploration with iterative preemption bounding (CHESS style): re-run with a
+		// prefix, complete without preemption (keep the running thread, else lowest), branch on every
+		// alternative enabled thread after the prefix whose prefix stays within the bound.
 		per := *n / len(tinyConfigs())
 		for ci, base := range tinyConfigs() {
-			stack := [][]int{{}}
-			seen := map[string]bool{}
 			runs := 0
-			for len(stack) > 0 && runs < per {
-				prefix := stack[0]
-				stack = stack[1:]
-				c := base
-				c.Sched = prefix
-				c.Policy = "lowest"
-				res, enabledAt := runCaseEnabled(node, hp, c)
-				runs++
-				emit(o, c, res, fmt.Sprintf("dfs%d", ci))
-				for i := len(res.Full) - 1; i >= len(prefix); i-- {
-					for _, alt := range enabledAt[i] {
-						if alt == res.Full[i] {
-							continue
-						}
-						np := append(append([]int{}, res.Full[:i]...), alt)
-						key := fmt.Sprint(np)
-						if seen[key] {
-							continue
-						}
-						full2 := np
-						if preemptions(enabledAt, full2, len(full2)-1) > *bound {
-							continue
-						}
+			exhaustedUpTo := -1
+			seen := map[string]bool{}
+			for b := 0; b <= *bound && runs < per; b++ {
+				stack := [][]int{{}}
+				for len(stack) > 0 && runs < per {
+					prefix := stack[len(stack)-1]
+					stack = stack[:len(stack)-1]
+					c := base
+					c.Sched = prefix
+					c.Policy = "nonpreempt"
+					res, enabledAt := runCaseEnabled(node, hp, c)
+					key := fmt.Sprint(res.Full)
+					if !seen[key] {
 						seen[key] = true
-						stack = append(stack, np)
+						runs++
+						emit(o, c, res, fmt.Sprintf("dfs%d", ci))
 					}
+					for i := len(res.Full) - 1; i >= len(prefix); i-- {
+						for _, alt := range enabledAt[i] {
+							if alt == res.Full[i] {
+								continue
+							}
+							np := append(append([]int{}, res.Full[:i]...), alt)
+							if preemptions(enabledAt, np, len(np)-1) > b {
+								continue
+							}
+							stack = append(stack, np)
+						}
+					}
+				}
+				if len(stack) == 0 {
+					exhaustedUpTo = b
 				}
 			}
 			o.Stats[fmt.Sprintf("dfs%d-runs", ci)] = runs
-			if len(stack) == 0 {
-				o.Stats[fmt.Sprintf("dfs%d-exhausted", ci)] = 1
-			}
+			o.Stats[fmt.Sprintf("dfs%d-exhausted-preemption-bound", ci)] = exhaustedUpTo
 		}
 	}
 	o.Write(*out)
